@@ -525,6 +525,108 @@ def marker_bounded(ctx):
     ctx.ob(RULE, "misnested-a", bad is None and k >= 2, bad or "error, adoption agency, entry removed if still listed, element removed from the stack", "html5ever tree_builder handle_misnested_a_tags")
 
 
+def dispatcher(ctx):
+    """the tree construction dispatcher (is_foreign): for every kind of token x every kind of adjusted current node the decision
+    'rules for foreign content' vs 'current insertion mode' is the standard's: HTML content for an empty stack, an HTML element,
+    a MathML text integration point with a start tag other than mglyph / malignmark or a character, annotation-xml with a start
+    tag svg, an HTML integration point (SVG foreignObject / desc / title, annotation-xml with an HTML encoding) with a start tag
+    or a character, and end of file; foreign content otherwise"""
+    key, pcs = nfq.cells(ctx, TB, "TreeBuilder<Handle,Sink>::is_foreign")
+    paths = nfq.feasible(pcs)
+    TOK = ("eof", "chars", "start:mglyph", "start:malignmark", "start:svg", "start:other", "end", "comment")
+    NODE = ("empty", "html", "mtext", "svgip", "axml-ip", "axml", "other")
+
+    def tok_alt(alt, t):
+        alt = alt.strip()
+        if alt in ("Eof",):
+            return t == "eof"
+        if alt.startswith("Characters(") or alt == "NullCharacter":
+            return t == "chars"
+        if alt.startswith("Comment("):
+            return t == "comment"
+        m = re.fullmatch(r"Tag\(Tag\{kind:(StartTag|EndTag)(,name:(_|atom:[\w-]+))?(,\.\.)?\}\)", alt)
+        if m:
+            if m.group(1) == "EndTag":
+                return t == "end" and (m.group(3) in (None, "_"))
+            if not t.startswith("start:"):
+                return False
+            if m.group(3) in (None, "_"):
+                return True
+            nm = m.group(3)[5:]
+            return t == "start:" + nm if nm in ("mglyph", "malignmark", "svg") else None
+        if alt == "_":
+            return True
+        return None
+
+    def ev(g, t, n):
+        g = re.sub(r"#\d+$", "", g)
+        if g.startswith("p1 matches "):
+            rs = [tok_alt(a, t) for a in g[len("p1 matches "):].split("|")]
+            return None if any(r is None for r in rs) else any(rs)
+        m = re.fullmatch(r"p1\.0\.name matches ((atom:[\w-]+\|?)+)", g)
+        if m:
+            names = {a[5:] for a in m.group(1).split("|")}
+            if not t.startswith("start:"):
+                return False
+            return t[6:] in names if names <= {"mglyph", "malignmark", "svg"} else None
+        if g == "self.open_elems.is_empty()":
+            return n == "empty"
+        if g.endswith(".expanded().ns matches atom:http://www.w3.org/1999/xhtml") and "adjusted_current_node()" in g:
+            return n == "html"
+        if g.startswith("mathml_text_integration_point(") and "adjusted_current_node()" in g:
+            return n == "mtext"
+        if g.startswith("svg_html_integration_point(") and "adjusted_current_node()" in g:
+            return n == "svgip"
+        if "matches ExpandedName{ns:atom:http://www.w3.org/1998/Math/MathML,local:atom:annotation-xml}" in g and "adjusted_current_node()" in g:
+            return n in ("axml", "axml-ip")
+        if g.startswith("self.sink.is_mathml_annotation_xml_integration_point(") and "adjusted_current_node()" in g:
+            return n == "axml-ip"
+        return None
+    bad = None
+    k = 0
+    for t in TOK:
+        for n in NODE:
+            html = (t == "eof" or n in ("empty", "html") or (n == "mtext" and (t == "chars" or (t.startswith("start:") and t not in ("start:mglyph", "start:malignmark"))))
+                    or (n in ("axml", "axml-ip") and t == "start:svg") or (n in ("svgip", "axml-ip") and (t == "chars" or t.startswith("start:"))))
+            answers = set()
+            for pc in paths:
+                ok = True
+                for g, v in pc["guards"].items():
+                    r = ev(g, t, n)
+                    if r is None:
+                        raise AnchorMissing("is_foreign tests '%s', which the dispatcher rule cannot interpret" % g[:100])
+                    if r != v:
+                        ok = False
+                        break
+                if ok:
+                    answers.add(str(pc["ret"]))
+            k += 1
+            want = "false" if html else "true"
+            if answers != {want}:
+                bad = "token %s with adjusted current node %s: the code answers is_foreign = %s, the standard's dispatcher says %s" % (t, n, sorted(answers) or "nothing", "HTML content (insertion mode)" if html else "foreign content")
+    ctx.ob(RULE, "tree-construction-dispatcher", bad is None and k == len(TOK) * len(NODE), bad or "%d (token kind, node kind) situations decided as the standard's dispatcher does" % k, "html5ever tree_builder is_foreign")
+    # the adjusted current node: the context element iff the stack has exactly one element and there is a context element
+    key, pcs = nfq.cells(ctx, TB, "TreeBuilder<Handle,Sink>::adjusted_current_node")
+    bad = None
+    seen = set()
+    for pc in nfq.feasible(pcs):
+        g = pc["guards"]
+        one = [v for x, v in g.items() if re.fullmatch(r"self\.open_elems\.len\(\) matches 1|\(self\.open_elems\.len\(\) == 1\)", re.sub(r"#\d+$", "", x))]
+        ctxe = [v for x, v in g.items() if "self.context_elem" in x]
+        ret = str(pc["ret"])
+        if one and one[0] and ctxe and ctxe[-1]:
+            seen.add("context")
+            if "context_elem" not in ret:
+                bad = "one element on the stack and a context element: the answer is %s" % ret[:60]
+        else:
+            seen.add("current")
+            if ret != "self.current_node()":
+                bad = "the adjusted current node is %s although the stack does not consist of exactly one element with a context element present" % ret[:60]
+        if not one:
+            bad = "the stack size is not tested against exactly one"
+    ctx.ob(RULE, "adjusted-current-node", bad is None and seen == {"context", "current"}, bad or "context element iff exactly one open element (fragment case), else the current node", "html5ever tree_builder adjusted_current_node")
+
+
 def marker_or_open(ctx):
     """'a marker, or an element that is in the stack of open elements': a marker answers true; an element entry answers whether
     ANY element of the whole stack is that node - the search is not cut short (a formatting element can sit below a special
@@ -535,7 +637,7 @@ def marker_or_open(ctx):
     for pc in nfq.feasible(pcs):
         g = pc["guards"]
         ret = str(pc["ret"])
-        if g.get("p1 matches Marker") is True:
+        if g.get("p1 matches Marker") is True or (g.get("p1 matches Element(_,_)") is False and "p1 matches Marker" not in g):
             seen.add("marker")
             if ret != "true":
                 bad = "a marker answers %s" % ret
@@ -730,7 +832,7 @@ def adoption_inner_loop(ctx):
            "html5ever tree_builder adoption_agency")
 
 
-FACTS = (marker_or_open, ignore_lf_one_token, insert_an_element, adoption_inner_loop, marker_bounded, in_scope, implied_end_tags, pop_until, appropriate_place, any_other_end_tag, clear_to_marker, close_the_cell, reconstruct, adoption_bailouts)
+FACTS = (dispatcher, marker_or_open, ignore_lf_one_token, insert_an_element, adoption_inner_loop, marker_bounded, in_scope, implied_end_tags, pop_until, appropriate_place, any_other_end_tag, clear_to_marker, close_the_cell, reconstruct, adoption_bailouts)
 
 
 def run(ctx):
